@@ -402,7 +402,7 @@ def bounded(ctx):
     # ---- 2b. sections with an indentation of their own
     n = 200 if quick else 4000
     ctx.check("random_indented", "%d seeded sequences of length 5..30 over 1-3 sections, widths 10/20/80, write_line / overwrite / "
-                                 "clear() plus indent(n) on a section (n in 0,2,4): every stacked line is shown with the "
+                                 "clear() plus indent(n) on a section (n in 0,1,2,4): every stacked line is shown with the "
                                  "indentation its own section had when it was written, sections below are re-printed as they were" % n)
     fails = _Failures(ctx)
     for _ in range(n):
@@ -415,7 +415,7 @@ def bounded(ctx):
         nsec = 1
         for o in ops:
             if ctx.rng.random() < 0.2:
-                out_ops.append(("ind", ctx.rng.randrange(nsec), ctx.rng.choice([0, 2, 4])))
+                out_ops.append(("ind", ctx.rng.randrange(nsec), ctx.rng.choice([0, 1, 2, 4])))
             out_ops.append(o)
             if o[0] == "new":
                 nsec += 1
